@@ -24,9 +24,24 @@ func (r *NgReader) readDecryptionSecretsBlock() error {
 	var decryptionSecretsBlock = &pcapngDecryptionSecretsBlock{}
 	decryptionSecretsBlock.secretsType = r.getUint32(r.buf[0:4])
 	decryptionSecretsBlock.secretsLength = r.getUint32(r.buf[4:8])
-	var payload = make([]byte, decryptionSecretsBlock.secretsLength)
-	if _, err := r.readBytes(payload); err != nil {
-		return fmt.Errorf("could not read %d bytes from DecryptionSecret payload: %v", decryptionSecretsBlock.secretsLength, err)
+	if decryptionSecretsBlock.secretsLength > r.currentBlock.length {
+		return fmt.Errorf("DecryptionSecret length %d exceeds block length", decryptionSecretsBlock.secretsLength)
+	}
+	// Read the payload in bounded chunks so that memory is only allocated
+	// for bytes that are really present in the stream.
+	const chunkSize = 4096
+	var payload []byte
+	for remaining := int(decryptionSecretsBlock.secretsLength); remaining > 0; {
+		chunk := remaining
+		if chunk > chunkSize {
+			chunk = chunkSize
+		}
+		start := len(payload)
+		payload = append(payload, make([]byte, chunk)...)
+		if _, err := r.readBytes(payload[start:]); err != nil {
+			return fmt.Errorf("could not read %d bytes from DecryptionSecret payload: %v", decryptionSecretsBlock.secretsLength, err)
+		}
+		remaining -= chunk
 	}
 	r.currentBlock.length -= uint32(len(payload))
 
